@@ -638,7 +638,7 @@ func (C *Contracts) ParseContractText(origin, text string) {
 			}
 			noCover := strings.HasSuffix(lab, "!")
 			lab = strings.TrimSuffix(lab, "!")
-			cl := Clause{NoCover: noCover, Label: lab, Expr: e, Src: rest, UsesCallres: strings.Contains(rest, "callres(") || strings.Contains(rest, "callarg(") || strings.Contains(rest, "called(")}
+			cl := Clause{NoCover: noCover, Label: lab, Expr: e, Src: rest, UsesCallres: strings.Contains(rest, "callres(") || strings.Contains(rest, "callarg(") || strings.Contains(rest, "called(") || strings.Contains(rest, "calledAny(") || strings.Contains(rest, "lastres(") || strings.Contains(rest, "lastarg(")}
 			switch {
 			case el.kw == "invariant" && curL != nil:
 				if cl.Label == "" {
